@@ -267,6 +267,7 @@ type c11Req struct {
 	route    string   // stable route class (signatures)
 	state    string
 	spell    string
+	hist     string
 	cred     string // credential label
 	credKind string // stable credential class (signatures)
 }
@@ -275,6 +276,9 @@ func (q *c11Req) String() string {
 	s := fmt.Sprintf("%s %s  [credential: %s", q.method, q.path, q.cred)
 	if q.state != "" {
 		s += "; session state: " + q.state
+	}
+	if q.hist != "" {
+		s += "; history: " + q.hist
 	}
 	if q.spell != "" {
 		s += "; id spelling: " + q.spell
@@ -286,11 +290,29 @@ func (r *c11Run) freshAPI() *api.HTTP {
 	return api.NewHTTP(ircServer, r.n.raft, ircStore, outputStream, &rafthttp.HTTPTransport{}, *network, *networkPassword, r.n.dir, vPeerAddr, *useProtobuf, 3)
 }
 
+// quiesce waits until the helper goroutines of the messages handler (getMessages, pingTicker) are gone;
+// they end asynchronously after the handler returned and must not meet a closed output stream.
+func (r *c11Run) quiesce() {
+	buf := make([]byte, 4<<20)
+	for k := 0; k < 50000; k++ {
+		st := string(buf[:runtime.Stack(buf, true)])
+		if !strings.Contains(st, "(*HTTP).getMessages") && !strings.Contains(st, "(*HTTP).pingTicker") && !strings.Contains(st, "(*HTTP).handleGetMessages") {
+			return
+		}
+		outputStream.InterruptGetNext()
+		time.Sleep(200 * time.Microsecond)
+	}
+	r.fail("helper goroutines of the messages handler did not end")
+}
+
 // exec runs one request on the real dispatcher.  A handler that streams (GET .../messages that
 // was accepted) is stopped as soon as `until` is satisfied.
 func (r *c11Run) exec(q *c11Req, h *api.HTTP, until func(code int, body string) bool, wait time.Duration) (vResp, error) {
 	r.res.Requests++
 	r.res.Parts[q.part]++
+	if len(r.unit) > 1 {
+		q.hist = r.unit[1]
+	}
 	r.progress("REQ " + q.String())
 	ctx, cancel := context.WithCancel(context.Background())
 	defer cancel()
@@ -301,7 +323,6 @@ func (r *c11Run) exec(q *c11Req, h *api.HTTP, until func(code int, body string) 
 	}
 	w := &vStreamWriter{hdr: http.Header{}, body: &vSafeBuf{}}
 	done := make(chan struct{})
-	g0 := runtime.NumGoroutine()
 	go func() {
 		defer close(done)
 		if q.public {
@@ -321,11 +342,7 @@ func (r *c11Run) exec(q *c11Req, h *api.HTTP, until func(code int, body string) 
 			c = 200
 		}
 		if streamed || (q.public && q.method == "GET" && c == 200) {
-			// helper goroutines of the messages handler end asynchronously
-			for k := 0; k < 20000 && runtime.NumGoroutine() > g0; k++ {
-				outputStream.InterruptGetNext()
-				time.Sleep(100 * time.Microsecond)
-			}
+			r.quiesce()
 		}
 		r.progress("DONE " + strconv.Itoa(c))
 		return vResp{Code: c, Body: w.body.String(), Header: w.hdr}
@@ -361,7 +378,7 @@ type c11World struct {
 	k        int
 	ch       string
 	U, L, F  vSession
-	D        vSession
+	D, V     vSession
 	delMode  string
 	markers  []string
 	cm       uint64
@@ -372,7 +389,7 @@ type c11World struct {
 func (w *c11World) nextCM() uint64 { w.cm++; return w.cm }
 
 func (w *c11World) secrets() [][2]string {
-	return [][2]string{{"U", w.U.Auth}, {"L", w.L.Auth}, {"F", w.F.Auth}, {"D", w.D.Auth}}
+	return [][2]string{{"U", w.U.Auth}, {"L", w.L.Auth}, {"F", w.F.Auth}, {"D", w.D.Auth}, {"V", w.V.Auth}}
 }
 
 func (r *c11Run) build(delMode string) *c11World {
@@ -414,6 +431,9 @@ func (r *c11Run) build(delMode string) *c11World {
 	post(w.U, fmt.Sprintf("PRIVMSG d%d :%s", k, mark("direct-d")))
 	post(w.U, "TOPIC "+w.ch+" :"+mark("topic"))
 	w.F = mk("F")
+	w.V = mk("V") // younger than every other session of the world
+	post(w.V, fmt.Sprintf("NICK v%d", k))
+	post(w.V, fmt.Sprintf("USER v%d 0 * :v", k))
 	switch delMode {
 	case "DELETE":
 		if resp := n.deleteSession(w.D, "c11 bye"); resp.Code != 200 {
@@ -449,6 +469,7 @@ func (r *c11Run) build(delMode string) *c11World {
 		if err == nil && len(msgs) > 0 {
 			w.lastseen = fmt.Sprintf("%d.%d", msgs[0].Id.Id, msgs[0].Id.Reply)
 		}
+		r.quiesce()
 	}
 	w.intact = true
 	return w
@@ -460,7 +481,7 @@ func (r *c11Run) alive(s vSession) bool {
 }
 
 func (r *c11Run) teardown(w *c11World) {
-	for _, s := range []vSession{w.U, w.L, w.F} {
+	for _, s := range []vSession{w.U, w.L, w.F, w.V} {
 		if s.Num != 0 && r.alive(s) {
 			r.n.deleteSession(s, "c11 teardown")
 		}
@@ -483,6 +504,7 @@ func (r *c11Run) history(hist string, w *c11World) {
 	}
 	restart := func() {
 		r.res.Restarts++
+		r.quiesce()
 		n.Stop()
 		nn, err := vStartNode(r.dir, false)
 		if err != nil {
@@ -492,36 +514,32 @@ func (r *c11Run) history(hist string, w *c11World) {
 		r.n = nn
 		n = nn
 	}
-	switch hist {
-	case "h0":
-	case "post1":
-		m := fmt.Sprintf("c11-marker-%d-h1", w.k)
-		w.markers = append(w.markers, m)
-		post(w.U, "PRIVMSG "+w.ch+" :"+m)
-	case "post2":
-		for _, x := range []string{"h1", "h2"} {
-			m := fmt.Sprintf("c11-marker-%d-%s", w.k, x)
+	for oi, op := range strings.Split(hist, "+") {
+		switch op {
+		case "h0":
+		case "post1":
+			m := fmt.Sprintf("c11-marker-%d-h%d", w.k, oi)
 			w.markers = append(w.markers, m)
 			post(w.U, "PRIVMSG "+w.ch+" :"+m)
+		case "config":
+			if resp := n.setConfig(strings.Replace(vCfgFast, `"30m"`, fmt.Sprintf(`"%dm"`, 31+(w.k+oi)%20), 1)); resp.Code != 200 {
+				r.fail("history config: %d %s", resp.Code, resp.Body)
+			}
+		case "snapshot":
+			snapshot()
+		case "restart":
+			restart()
+		default:
+			r.fail("unknown history operation %q", op)
 		}
-	case "config":
-		if resp := n.setConfig(strings.Replace(vCfgFast, `"30m"`, fmt.Sprintf(`"%dm"`, 31+w.k%20), 1)); resp.Code != 200 {
-			r.fail("history config: %d %s", resp.Code, resp.Body)
+		if r.herr != "" {
+			return
 		}
-	case "snapshot":
-		snapshot()
-	case "restart":
-		restart()
-	case "snapshot+restart":
-		snapshot()
-		restart()
-	default:
-		r.fail("unknown history %q", hist)
 	}
 	if r.herr != "" {
 		return
 	}
-	if !r.alive(w.U) || !r.alive(w.L) || !r.alive(w.F) {
+	if !r.alive(w.U) || !r.alive(w.L) || !r.alive(w.F) || !r.alive(w.V) {
 		w.intact = false
 		r.res.WorldLost[hist]++
 	}
@@ -773,9 +791,13 @@ func (r *c11Run) sessReq(w *c11World, sh c11Shape, sp, state, spell string, c c1
 
 // sessionUnit: one session state x one id spelling, all shapes x all credentials.
 func (r *c11Run) sessionUnit(hist, state, spell string) {
+	// the server tells "no such session" from "not yet seen" by comparing the id with the id it processed
+	// last; in the "(older ...)" variant the youngest session V speaks last, so that both answers are covered
+	const older = " (older than the last speaker)"
+	lateV := strings.HasSuffix(state, older)
 	delMode := "DELETE"
 	if strings.HasPrefix(state, "deleted by ") {
-		delMode = strings.TrimPrefix(state, "deleted by ")
+		delMode = strings.TrimSuffix(strings.TrimPrefix(state, "deleted by "), older)
 	}
 	w := r.build(delMode)
 	defer func() { r.teardown(w) }()
@@ -785,6 +807,12 @@ func (r *c11Run) sessionUnit(hist, state, spell string) {
 	r.history(hist, w)
 	if r.herr != "" {
 		return
+	}
+	if lateV && w.intact {
+		if resp := r.n.post(w.V, "PING late", w.nextCM()); resp.Code != 200 {
+			r.fail("late PING refused: %d %s", resp.Code, resp.Body)
+			return
+		}
 	}
 	var T vSession
 	live := false
@@ -836,7 +864,7 @@ func (r *c11Run) sessionUnit(hist, state, spell string) {
 	for _, o := range []struct {
 		name string
 		s    vSession
-	}{{"U (logged in)", w.U}, {"L (logged in)", w.L}, {"F (fresh)", w.F}} {
+	}{{"U (logged in)", w.U}, {"L (logged in)", w.L}, {"F (fresh)", w.F}, {"V (logged in, youngest)", w.V}} {
 		if o.s.Num == T.Num && !garbage {
 			continue
 		}
@@ -849,6 +877,9 @@ func (r *c11Run) sessionUnit(hist, state, spell string) {
 
 	shapes := c11Shapes(w)
 	for _, sh := range shapes {
+		if sh.method == "POST" && sp+sh.suffix == "session" {
+			continue // POST /robustirc/v1/session is the (public) session creation
+		}
 		for ci, c := range creds {
 			if !sh.diag && ci >= 2 && c.kind != "another live session's secret" && c.kind != "a wrong secret" {
 				continue // off-route shapes: reduced credential set
@@ -888,7 +919,8 @@ func (r *c11Run) sessionUnit(hist, state, spell string) {
 		return
 	}
 	must := spell == "hex"
-	expectContent := hist != "snapshot+restart"
+	// a node restored from a snapshot replays the compacted log: old channel messages may be gone
+	expectContent := !(strings.Contains(hist, "snapshot") && strings.HasSuffix(hist[strings.Index(hist, "snapshot"):], "restart"))
 	r.lifecycle(w, T, sp, state, spell, correct, must, expectContent)
 }
 
@@ -1142,7 +1174,7 @@ func (r *c11Run) privateUnit(hist, ppath string) {
 	for _, method := range []string{"GET", "POST", "DELETE", "PUT"} {
 		for _, a := range c11BadAuths(w) {
 			body, hdr := bodyFor(method)
-			q := &c11Req{part: "private", method: method, path: c11AddQuery(path, a.query), hdr: hdr, body: body, route: route, cred: a.label, credKind: a.label, state: hist}
+			q := &c11Req{part: "private", method: method, path: c11AddQuery(path, a.query), hdr: hdr, body: body, route: route, cred: a.label, credKind: a.label}
 			if a.basic {
 				rq, _ := http.NewRequest("GET", "http://x/", nil)
 				rq.SetBasicAuth(a.user, a.pass)
@@ -1171,7 +1203,7 @@ func (r *c11Run) privateUnit(hist, ppath string) {
 	}
 	for _, method := range []string{"GET", "POST", "DELETE", "PUT"} {
 		body, hdr := bodyFor(method)
-		q := &c11Req{part: "private", method: method, path: path, hdr: hdr, body: body, route: route, cred: "user robustirc with the network password", state: hist}
+		q := &c11Req{part: "private", method: method, path: path, hdr: hdr, body: body, route: route, cred: "user robustirc with the network password"}
 		rq, _ := http.NewRequest("GET", "http://x/", nil)
 		rq.SetBasicAuth("robustirc", vNetPassword)
 		q.hdr["Authorization"] = rq.Header.Get("Authorization")
@@ -1224,7 +1256,7 @@ func (r *c11Run) pubprivUnit(hist string) {
 		for _, method := range []string{"GET", "POST", "DELETE", "PUT"} {
 			for _, c := range creds {
 				q := &c11Req{part: "public->private", public: true, method: method, path: "/robustirc/v1" + path, route: route, cred: c.label, credKind: c.label,
-					hdr: map[string]string{}, carried: c.carried, state: hist}
+					hdr: map[string]string{}, carried: c.carried}
 				for k, v := range c.hdr {
 					q.hdr[k] = v
 				}
@@ -1251,11 +1283,21 @@ type c11Unit struct {
 }
 
 func c11Units(thorough bool) []c11Unit {
-	hists := []string{"h0", "snapshot+restart"}
+	hists := []string{"h0", "post1", "config", "snapshot+restart"}
 	if thorough {
-		hists = []string{"h0", "post1", "post2", "config", "snapshot", "restart", "snapshot+restart"}
+		// every sequence of at most two history operations
+		ops := []string{"post1", "config", "snapshot", "restart"}
+		hists = []string{"h0"}
+		hists = append(hists, ops...)
+		for _, a := range ops {
+			for _, b := range ops {
+				hists = append(hists, a+"+"+b)
+			}
+		}
 	}
 	states := []string{"fresh", "logged in", "deleted by DELETE", "deleted by QUIT", "deleted by adminkill", "deleted by operkill",
+		"deleted by DELETE (older than the last speaker)", "deleted by QUIT (older than the last speaker)",
+		"deleted by adminkill (older than the last speaker)", "deleted by operkill (older than the last speaker)",
 		"never existed (id 1)", "id 0", "not yet seen (id 2^62)"}
 	var out []c11Unit
 	for _, h := range hists {
@@ -1360,6 +1402,7 @@ func TestVerifC11(t *testing.T) {
 		}
 	}
 	r.progress("END")
+	r.quiesce()
 	r.n.Stop()
 	write()
 }
